@@ -5,7 +5,9 @@ from hutil import S, unS, err
 MODEL = "C08"
 PROP_FILES = ["Props/C08.v"]
 RULE = ("exhaustive: all strings up to length 6 (quick) / 7 (thorough) over {a, space, tab, ', \", backslash, -} and up to length 5 "
-        "over {n, #, space, ', \", backslash} (a letter an escape translation would touch, a comment character); seeded random "
+        "over {n, #, space, ', \", backslash} (a letter an escape translation would touch, a comment character) and up to length 4 "
+        "over {NUL, a, space, ', backslash}; NUL, other C0 controls, ESC, DEL, a byte-order mark, a lone surrogate, a non-character "
+        "in 3 % of the random characters; seeded random "
         "token lists (0-4 tokens of 0-5 chars over all printable ASCII, \\n \\t \\r, all 29 whitespace code points, combining / "
         "astral / other non-ASCII characters, quotes and backslash weighted up; a third of the lists drawn from a pool of command "
         "names, option spellings, '--' and quoted values) quoted per token with ' or \" (or left bare when possible) and joined by "
@@ -13,7 +15,10 @@ RULE = ("exhaustive: all strings up to length 6 (quick) / 7 (thorough) over {a, 
         "tokeniser's output, and both forms go through two parsers (strict + lenient, a format whose option names occur in the "
         "lists) and the DefaultResolver of a 2-level application) and an inexpressible one (model = implementation only); long "
         "inputs of 50..5000 characters built from repeated units ('\", \\\\, \"a', ' \", spaces: deep quote nesting); argv lists "
-        "with '--' at every position; the str.isspace() table computed by the model; non-trivial = string with a quote or "
+        "with '--' at every position and lists of <= 3 tokens that only look like '--' (' --', '-- ', '--\\t', '---', an em dash); "
+        "2 % of the token lists and 10 % of the unquoted word lists carry one LONG token (64 .. 5000 characters: round trip / "
+        "split demanded there too); every string is also split by ONE TokenParser object that has split other strings before "
+        "(one ending inside a quotation) - same tokens demanded; the str.isspace() table computed by the model; non-trivial = string with a quote or "
         "backslash, or >= 2 tokens; distinct by string / token list")
 TRUSTED = ["parser/resolver indistinguishability of StringArgs and ArgvArgs is checked by running both forms through the same parsers "
            "and the same resolver (testing); the Coq statement string_and_argv_indistinguishable holds by construction of the model "
@@ -29,6 +34,10 @@ PRINTABLE = [chr(x) for x in range(33, 127)]
 FOREIGN = ["\u0301", "\u0308", "\u00e9", "\u03bb", "\u4e2d", "\U0001d4d0", "\U0001f600", "\u0663", "\u200b"]
 SPECIAL = ["'", '"', "\\", "-", "=", "n", "t", "r", "#", "0", "f", "v", "$", "`"]
 CONTROL = ["\n", "\t", "\r"]
+# characters that are neither printable nor white space: NUL, other C0 controls, ESC, DEL, a byte-order mark, a lone
+# surrogate, a non-character (audit mutant C08-6 ended the command line at a NUL; no generated string held one)
+ODD = ["\x00", "\x01", "\x07", "\x08", "\x1b", "\x7f", "\ufeff", "\ud800", "\uffff", "\x00"]
+ALPHA3 = ["\x00", "a", " ", "'", "\\"]
 # tokens that mean something to the parser / resolver of _parse_resolve below
 WORDS = ["server", "srv", "add", "list", "--", "-", "-v", "--verbose", "-f", "-fx", "-f=x", "--foo", "--foo=a b", "--foo=", "--bar",
          "-vf", "a b", "it's", 'say "hi"', "", "x", "--no", "-x", "\\n", "#c", "-#"]
@@ -84,11 +93,26 @@ def _rand_token(rng):
             out.append(rng.choice(PRINTABLE))
         elif r < 0.85:
             out.append(rng.choice(FOREIGN))
-        elif r < 0.90:
+        elif r < 0.88:
             out.append(rng.choice(CONTROL))
+        elif r < 0.91:
+            out.append(rng.choice(ODD))
         else:
             out.append(rng.choice(sp))
     return "".join(out)
+
+
+LONG_TOKEN_LENGTHS = [64, 127, 128, 255, 256, 257, 300, 1000, 1024, 4095, 4096, 4097, 5000]
+
+
+def _long_token(rng, unit):
+    """the unit repeated to one of LONG_TOKEN_LENGTHS characters (expressibility is kept: the unit's own is decided later)"""
+    n = rng.choice(LONG_TOKEN_LENGTHS)
+    t = (unit * (n // len(unit) + 1))[:n]
+    # do not end inside a backslash run of the unit
+    while t.endswith("\\") and not expressible(t):
+        t = t[:-1]
+    return t
 
 
 def _long_input(rng):
@@ -122,14 +146,23 @@ def gen(rng, tier, info):
         for t in itertools.product(ALPHA2, repeat=k):
             if "n" in t or "#" in t:
                 cases.append({"k": 0, "s": "".join(t)})
+    for k in range(1, 5):
+        for t in itertools.product(ALPHA3, repeat=k):
+            if "\x00" in t:
+                cases.append({"k": 0, "s": "".join(t)})
     n_ex = len(cases)
     nr = {"quick": 20000, "thorough": 200000, "search": 10000}[tier]
-    n_expr = n_words = 0
+    n_expr = n_words = n_long_tok = 0
     for _ in range(nr):
         nt = rng.randint(0, 4)
         words = rng.random() < 0.33
         n_words += words
         toks = [rng.choice(WORDS) if (words and rng.random() < 0.85) else _rand_token(rng) for _ in range(nt)]
+        if nt and rng.random() < 0.02:
+            # one LONG token (a path, a message): the statement's tokens have no maximal length; the round trip is demanded
+            j = rng.randrange(nt)
+            toks[j] = _long_token(rng, toks[j] or "ab")
+            n_long_tok += 1
         qs = []
         for t in toks:
             qs.append(0 if (bare_ok(t) and rng.random() < (0.6 if words else 0.3)) else rng.choice([1, 2]))
@@ -141,10 +174,14 @@ def gen(rng, tier, info):
         cases.append({"k": 0, "s": build(toks, qs, seps, lead, trail), "toks": toks if ex else None})
     # unquoted text: words over printable non-quote characters split at runs of any whitespace (no quoting involved)
     nu = nr // 10
-    plain = [ch for ch in PRINTABLE + FOREIGN if ch not in "'\"\\"]
+    plain = [ch for ch in PRINTABLE + FOREIGN + ODD if ch not in "'\"\\"]
     for _ in range(nu):
         nt = rng.randint(2, 5)
         toks = ["".join(rng.choice(plain) for _ in range(rng.randint(1, 4))) for _ in range(nt)]
+        if rng.random() < 0.1:
+            j = rng.randrange(nt)
+            toks[j] = _long_token(rng, toks[j])
+            n_long_tok += 1
         seps = ["".join(chr(rng.choice(SPACES)) for _ in range(rng.randint(1, 3))) for _ in range(nt - 1)]
         cases.append({"k": 0, "s": build(toks, [0] * nt, seps, "", chr(rng.choice(SPACES)) if rng.random() < 0.5 else ""), "toks": toks})
     # long inputs
@@ -159,6 +196,11 @@ def gen(rng, tier, info):
     for k in range(0, 5):
         for t in itertools.product(pool[:6], repeat=k):
             cases.append({"k": 1, "toks": list(t), "probes": pool})
+    # tokens that only look like the end-of-options marker
+    near = ["--", " --", "-- ", "--\t", "---", "-", "\u2014", "--\n", "-v"]
+    for k in range(1, 4):
+        for t in itertools.product(near, repeat=k):
+            cases.append({"k": 1, "toks": list(t), "probes": near})
     for k in range(0, 6):
         for t in itertools.product(["a", "\\", "'", '"'], repeat=k):
             cases.append({"k": 3, "t": "".join(t)})
@@ -167,8 +209,9 @@ def gen(rng, tier, info):
         cases.append({"k": 2, "lo": lo, "hi": min(hi, lo + 0x4000)})
     info["exhaustive"] = True
     info["distribution"] = {"exhaustive_strings": n_ex, "max_len": depth, "random_token_lists": nr, "of_which_expressible": n_expr,
+                            "token_lists_with_a_long_token (64..5000 characters)": n_long_tok,
                             "of_which_from_the_word_pool": n_words, "unquoted_word_lists": nu, "long_inputs": nl + 8,
-                            "argv_lists": sum(6 ** k for k in range(5)), "isspace_range": hi}
+                            "argv_lists": sum(6 ** k for k in range(5)) + sum(9 ** k for k in range(1, 4)), "isspace_range": hi}
     return cases
 
 
@@ -263,6 +306,16 @@ def run_impl(c):
         except Exception as e:
             return err(e)
         out = [0, [S(t) for t in a.tokens], [S(t) for t in a.option_tokens]]
+        # tokenising is a function of the string: ONE TokenParser object that has already split other strings (one that
+        # ends inside a quoted string, and this very string) gives what the new parser inside StringArgs gave
+        from clikit.args.token_parser import TokenParser
+        tp = TokenParser()
+        try:
+            tp.parse("a 'b \\")
+            tp.parse(c["s"])
+            again = 1 if tp.parse(c["s"]) == list(a.tokens) else 0
+        except Exception:
+            again = 0
         # the argv form, built WITHOUT the tokeniser wherever the case says what the string spells: the generated token list
         # (expressible stream), str.split() for text free of quotes and backslashes; else the tokens just read (whose
         # agreement with the model's tokens is the first part of this observation)
@@ -275,7 +328,7 @@ def run_impl(c):
             argv, indep = list(a.tokens), 0
         b = ArgvArgs(["script"] + argv)
         same = _same(a, b)
-        return out + [same, indep]
+        return out + [same, indep, again]
     if c["k"] == 1:
         argv = ["script"] + list(c["toks"])
         snapshot = list(argv)
@@ -309,6 +362,8 @@ def oracle(c, o):
             return "unquoted-split"
         if not o[3]:
             return "string-and-argv-forms-differ"
+        if len(o) > 5 and not o[5]:
+            return "a-token-parser-used-before-splits-differently"
         exp = list(itertools.takewhile(lambda t: t != "--", toks))
         if [unS(t) for t in o[2]] != exp:
             return "option-tokens"
